@@ -22,6 +22,7 @@ struct Plan
   const char *name;
   const char *text;
   int horizon_ticks;
+  int bound_cap = 0; // > 0: explore this plan with at most this many deviations in the quick tier (one more in the thorough tier)
 };
 static std::vector<Plan> PLANS = {
     {"sv-meet", "class S : StateVariable { predicate A() { duration >= 2.0; } predicate B() { duration >= 1.0; } } S s = new S(); goal a = new s.A(); goal b = new s.B(); a.end <= b.start; a.start >= 1.0;", 9},
@@ -39,6 +40,9 @@ static std::vector<Plan> PLANS = {
     // strict temporal inequalities: the planned times carry an infinitesimal part (3 + eps), which the dispatcher has to honour
     {"strict-precedence", "predicate M() : Interval { duration >= 3.0; } predicate G() : Interval { duration >= 2.0; } goal m = new M(); goal g = new G(); g.start > m.end;", 9},
     {"strict-impulse", "predicate M() : Interval { duration >= 2.0; } predicate B() : Impulse { } goal m = new M(); goal b = new B(); b.at > m.start + 1.0; m.start >= 1.0;", 8},
+    // three alternatives for one goal, the middle one tied to the end of another atom through an intermediate variable: after
+    // a failure the re-solve tries it and may push the end of an atom that has already ended
+    {"three-alternatives", "predicate A() : Interval { duration >= 5.0; } predicate B() : Interval { duration >= 2.0; } predicate C() : Interval { duration >= 10.0; } predicate D() : Interval { duration >= 10.0; } predicate E() : Interval { duration >= 12.0; } predicate G() : Interval { { goal c = new C(start:start, end:end); } or { goal d = new D(start:start, end:end); real t; t >= d.start + 12.0; a.end >= t; b.start <= 15.0; } or { goal e = new E(start:start, end:end); } } goal a = new A(); goal b = new B(); goal g = new G(); b.start >= a.end + 6.0; g.start >= a.start + 1.0;", 20, 2},
     // an agent with an impulse followed by an interval
     {"agent", "class G : Agent { predicate N() : Impulse { } predicate W() : Interval { duration >= 1.0; } } G ag = new G(); goal n = new ag.N(); goal w = new ag.W(); n.at >= 2.0; w.start >= n.at;", 9},
 };
@@ -576,6 +580,8 @@ int main(int argc, char **argv)
         g_plan = (int)pi;
         g_upt = u;
         g_bound = bound;
+        if (PLANS[pi].bound_cap)
+          g_bound = std::min(bound, PLANS[pi].bound_cap + (th ? 1 : 0));
         uint64_t before = vf::st().sink.counters["executions"];
         vf::RunResult rr = vf::run_units(UNITS, run_unit, opt);
         exhaustive = exhaustive && rr.exhaustive;
